@@ -22,12 +22,16 @@
 #include <iv_event_raw.h>
 #include <iv_work.h>
 #include <iv_thread.h>
+#include <iv_signal.h>
+#include <iv_wait.h>
+#include <iv_popen.h>
 
-enum { K_FD, K_TM, K_TK, K_EV, K_RAW, K_POOL, K_WI, NKIND };
-static const char *kname[NKIND] = { "fd", "tm", "tk", "ev", "raw", "pool", "wi" };
+enum { K_FD, K_TM, K_TK, K_EV, K_RAW, K_POOL, K_WI, K_SIG, K_WAIT, K_POPEN, NKIND };
+static const char *kname[NKIND] = { "fd", "tm", "tk", "ev", "raw", "pool", "wi", "sig", "wait", "popen" };
 static const size_t ksize[NKIND] = { sizeof(struct iv_fd), sizeof(struct iv_timer),
 	sizeof(struct iv_task), sizeof(struct iv_event), sizeof(struct iv_event_raw),
-	sizeof(struct iv_work_pool), sizeof(struct iv_work_item) };
+	sizeof(struct iv_work_pool), sizeof(struct iv_work_item), sizeof(struct iv_signal),
+	sizeof(struct iv_wait_interest), sizeof(struct iv_popen_request) };
 #define MAXO 8
 #define COOKIE_MAGIC 0x1ccc00c1u
 
@@ -62,6 +66,7 @@ static __thread int cbdepth, inapi;
 static pthread_t thr[MAXTH];
 static int thr_started[MAXTH], thr_joined[MAXTH];
 static int schedbuf[1024], nsched, sched_det, sticky = -1, jump;
+static int sigsim, pids[16], npids, chldthr;
 
 /* ---------------------------------------------------------------- helpers */
 static int kind_of(const char *s)
@@ -194,6 +199,7 @@ static int fid_of_osfd(int fd)
 
 /* ------------------------------------------------------------ trampolines */
 static void run_ops(char ctx, int kind, int id, int band, int occ, int q);
+static __thread int wait_status;
 
 static void cb_common(void *cookie, int kind, int band, int hid)
 {
@@ -213,8 +219,8 @@ static void cb_common(void *cookie, int kind, int band, int hid)
 		default: reg = o->reg; break;
 		}
 	}
-	tr("\"e\":\"CbB\",\"k\":\"%s\",\"o\":%d,\"b\":%d,\"h\":%d,\"ck\":%d,\"ko\":\"%s\",\"reg\":%d,\"d\":%d,\"api\":%d}",
-	   kname[kind], c->id, band, hid, c->ck, kname[c->kind], reg, cbdepth, inapi);
+	tr("\"e\":\"CbB\",\"k\":\"%s\",\"o\":%d,\"b\":%d,\"h\":%d,\"ck\":%d,\"ko\":\"%s\",\"reg\":%d,\"d\":%d,\"api\":%d,\"st\":%d}",
+	   kname[kind], c->id, band, hid, c->ck, kname[c->kind], reg, cbdepth, inapi, kind == K_WAIT ? wait_status : 0);
 	if (++ncb > maxcb)
 		simk_end("runaway", 0);
 	cbdepth++;
@@ -267,6 +273,13 @@ static void pool_start(void *c) { pool_hook(c, "start"); }
 static void pool_stop(void *c) { pool_hook(c, "stop"); }
 
 static void ivthread_body(void *arg);
+
+static void sig_cb(void *c) { cb_common(c, K_SIG, 0, ((struct cookie *)c)->id); }
+static void wait_cb(void *c, int status, const struct rusage *ru)
+{
+	wait_status = status;
+	cb_common(c, K_WAIT, 0, ((struct cookie *)c)->id);
+}
 
 /* fd `f` handler variant v (0 none, 1, 2) -> handler id */
 static int hid_of(int f, int v) { return v ? 2 * f - 2 + v : 0; }
@@ -494,6 +507,106 @@ static void do_op(struct op *p)
 		iv_event_raw_post(o->mem);
 		o->inpost--;
 		alog(n, id, 0, 0, 0, 0, 0);
+	} else if (!strcmp(n, "sig_reg")) {
+		/* a[1] = signal number, a[2] = flags (1 exclusive, 2 this-thread) */
+		OBJ(K_SIG);
+		if (o->reg) { skip(n, id); goto out; }
+		struct iv_signal *is = fresh(K_SIG, id);
+		IV_SIGNAL_INIT(is);
+		is->signum = (int)p->a[1];
+		is->flags = (unsigned)p->a[2];
+		is->cookie = cookie_of(K_SIG, id);
+		is->handler = sig_cb;
+		r = iv_signal_register(is);
+		if (r == 0) o->reg = 1;
+		o->osfd = me;	/* registering thread */
+		alog(n, id, p->a[1], p->a[2], 0, 0, r);
+		tr("\"e\":\"DispNow\",\"sig\":%d,\"h\":\"%s\"}", (int)p->a[1], simk_disposition((int)p->a[1]));
+		if (r != 0) quarantine(K_SIG, id);
+	} else if (!strcmp(n, "sig_unreg")) {
+		OBJ(K_SIG);
+		if (!o->reg || o->osfd != me) { skip(n, id); goto out; }
+		int signum = ((struct iv_signal *)o->mem)->signum;
+		iv_signal_unregister(o->mem);
+		o->reg = 0;
+		alog(n, id, signum, 0, 0, 0, 0);
+		tr("\"e\":\"DispNow\",\"sig\":%d,\"h\":\"%s\"}", signum, simk_disposition(signum));
+		quarantine(K_SIG, id);
+	} else if (!strcmp(n, "raise")) {
+		/* a[0] = signal, a[1] = receiving thread (scheduler index) */
+		simk_raise((int)p->a[0], (int)p->a[1]);
+		simk_yield();
+	} else if (!strcmp(n, "childraise")) {
+		/* the signal is delivered in a forked child: same descriptors, other
+		 * pid.  A child has one thread, so nothing else runs meanwhile. */
+		simk_set_pid(2000);
+		simk_raise((int)p->a[0], me);
+		simk_sigpoint();
+		simk_set_pid(1000);
+	} else if (!strcmp(n, "wait_reg") || !strcmp(n, "wait_spawn")) {
+		/* a[1] = pid (wait_reg) */
+		OBJ(K_WAIT);
+		if (o->reg) { skip(n, id); goto out; }
+		struct iv_wait_interest *w = fresh(K_WAIT, id);
+		IV_WAIT_INTEREST_INIT(w);
+		w->cookie = cookie_of(K_WAIT, id);
+		w->handler = wait_cb;
+		if (!strcmp(n, "wait_reg")) {
+			w->pid = (pid_t)p->a[1];
+			iv_wait_interest_register(w);
+		} else {
+			tr("\"e\":\"SpawnB\",\"o\":%d}", id);
+			r = iv_wait_interest_register_spawn(w, NULL, NULL);
+		}
+		if (r == 0) o->reg = 1;
+		o->osfd = me;
+		alog(n, id, (long)w->pid, 0, 0, 0, r);
+		if (r != 0) quarantine(K_WAIT, id);
+	} else if (!strcmp(n, "wait_unreg")) {
+		OBJ(K_WAIT);
+		if (!o->reg || o->osfd != me) { skip(n, id); goto out; }
+		iv_wait_interest_unregister(o->mem);
+		o->reg = 0;
+		alog(n, id, 0, 0, 0, 0, 0);
+		quarantine(K_WAIT, id);
+	} else if (!strcmp(n, "wait_kill")) {
+		OBJ(K_WAIT);
+		if (!o->reg) { skip(n, id); goto out; }
+		r = iv_wait_interest_kill(o->mem, (int)p->a[1]);
+		alog(n, id, p->a[1], 0, 0, 0, r);
+	} else if (!strcmp(n, "child")) {
+		/* environment: a[0] pid, a[1] what (0 exit 1 killed 2 stop 3 cont), a[2] arg */
+		simk_child_event((pid_t)p->a[0], (int)p->a[1], (int)p->a[2]);
+		simk_yield();
+	} else if (!strcmp(n, "forkexit")) {
+		simk_fork_exit = (int)p->a[0];
+	} else if (!strcmp(n, "stranger")) {
+		simk_add_child((pid_t)p->a[0]);
+	} else if (!strcmp(n, "childpol")) {
+		simk_child_policy((pid_t)p->a[0], (int)p->a[1], (int)p->a[2]);
+	} else if (!strcmp(n, "popen")) {
+		/* a[1] = 0 "r", 1 "w" */
+		OBJ(K_POPEN);
+		if (o->reg) { skip(n, id); goto out; }
+		static char *argv_[] = { "true", NULL };
+		struct iv_popen_request *pr = fresh(K_POPEN, id);
+		IV_POPEN_REQUEST_INIT(pr);
+		pr->file = "true";
+		pr->argv = argv_;
+		pr->type = p->a[1] ? "w" : "r";
+		r = iv_popen_request_submit(pr);
+		if (r >= 0) { o->reg = 1; o->peer = (int)r; }
+		alog(n, id, p->a[1], 0, 0, 0, r >= 0 ? 0 : r);
+		if (r < 0) quarantine(K_POPEN, id);
+	} else if (!strcmp(n, "popen_close")) {
+		OBJ(K_POPEN);
+		if (!o->reg) { skip(n, id); goto out; }
+		iv_popen_request_close(o->mem);
+		if (o->peer >= 0) __real_close(o->peer);
+		o->peer = -1;
+		o->reg = 0;
+		alog(n, id, 0, 0, 0, 0, 0);
+		quarantine(K_POPEN, id);
 	} else if (!strcmp(n, "pool_create")) {
 		OBJ(K_POOL);
 		if (o->reg) { skip(n, id); goto out; }
@@ -548,7 +661,9 @@ static void do_op(struct op *p)
 		alog(n, 0, 0, 0, 0, 0, 0);
 	} else if (!strcmp(n, "iv_main")) {
 		tr("\"e\":\"MainB\"}");
+		inapi--;
 		iv_main();
+		inapi++;
 		tr("\"e\":\"MainE\"}");
 	} else if (!strcmp(n, "iv_deinit")) {
 		iv_deinit();
@@ -605,6 +720,14 @@ static int do_env(struct op *p)
 	struct obj *o = (id >= 1 && id <= MAXO) ? &O[K_FD][id] : NULL;
 	long r = 0;
 
+	if (!strcmp(n, "child")) {
+		simk_child_event((pid_t)p->a[0], (int)p->a[1], (int)p->a[2]);
+		return 1;
+	}
+	if (!strcmp(n, "raise")) {
+		simk_raise((int)p->a[0], (int)p->a[1]);
+		return 1;
+	}
 	if (!strcmp(n, "advance")) {
 		simk_advance_clamped((ns_t)p->a[0] * NSEC + p->a[1]);
 		tr("\"e\":\"Env\",\"op\":\"advance\",\"o\":0,\"n\":0,\"now\":[%lld,%lld]}", TS(vnow));
@@ -747,6 +870,12 @@ static void run_script(void)
 	if (sticky >= 0)
 		simk_set_sticky(sticky);
 	simk_jump_prob = jump;
+	if (sigsim) {
+		simk_sig_init();
+		if (npids)
+			simk_set_next_pids(pids, npids);
+		simk_set_sigchld_thread(chldthr);
+	}
 	hooks.truth_json = truth_json;
 	hooks.fid_of_ptr = fid_of_ptr;
 	hooks.fid_of_osfd = fid_of_osfd;
@@ -794,6 +923,9 @@ static void reset_script(void)
 	sticky = -1;
 	jump = 0;
 	maxcb = 120;
+	sigsim = 0;
+	npids = 0;
+	chldthr = 0;
 	memset(thr_started, 0, sizeof thr_started);
 	memset(thr_joined, 0, sizeof thr_joined);
 	for (int k = 0; k < NKIND; k++)
@@ -847,6 +979,13 @@ int main(int argc, char **argv)
 				else if (!strncmp(tok[i], "reuse=", 6)) reuse = atoi(tok[i] + 6);
 				else if (!strncmp(tok[i], "det=", 4)) sched_det = atoi(tok[i] + 4);
 				else if (!strncmp(tok[i], "jump=", 5)) jump = atoi(tok[i] + 5);
+				else if (!strncmp(tok[i], "sigsim=", 7)) sigsim = atoi(tok[i] + 7);
+				else if (!strncmp(tok[i], "chldthr=", 8)) chldthr = atoi(tok[i] + 8);
+				else if (!strncmp(tok[i], "pids=", 5)) {
+					npids = 0;
+					for (char *q = strtok(tok[i] + 5, ","); q && npids < 16; q = strtok(NULL, ","))
+						pids[npids++] = atoi(q);
+				}
 				else if (!strncmp(tok[i], "maxcb=", 6)) maxcb = atoi(tok[i] + 6);
 				else if (!strncmp(tok[i], "sticky=", 7)) sticky = atoi(tok[i] + 7);
 				else if (!strncmp(tok[i], "sched=", 6)) {
